@@ -633,6 +633,16 @@ def check(ctx):
             var13 = shifted[0]
             comp = [a_ for a_ in walk_no_nested(f13) if isinstance(a_, ast.AugAssign) and isinstance(a_.op, ast.LShift) and isinstance(a_.target, ast.Name) and a_.target.id == var13
                     and a_.lineno > tr.end_lineno and isinstance(a_.value, ast.BinOp) and isinstance(a_.value.op, ast.Sub)]
+            if not comp:
+                # the collecting step may hand bits and count back (return bits, count, encoders) and leave the move to its caller
+                returns_both = any(isinstance(r_, ast.Return) and isinstance(r_.value, ast.Tuple) and var13 in {x_.id for x_ in r_.value.elts if isinstance(x_, ast.Name)}
+                                   and len(r_.value.elts) >= 3 for r_ in walk_no_nested(f13))
+                if returns_both:
+                    for g_ in mt13.methods.values():
+                        if g_ is f13 or not any(isinstance(c_, ast.Call) and isinstance(c_.func, ast.Attribute) and c_.func.attr == f13.name for c_ in walk_no_nested(g_)):
+                            continue
+                        comp += [a_ for a_ in walk_no_nested(g_) if isinstance(a_, ast.AugAssign) and isinstance(a_.op, ast.LShift) and isinstance(a_.value, ast.BinOp)
+                                 and isinstance(a_.value.op, ast.Sub)]
             ok13 = bool(comp)
             ctx.instance('C06.R13', '%s: `%s` is shifted once per visited addition inside try/except-pass' % (Model.qual(f13), var13), 'moved to position afterwards' if ok13 else 'VIOLATION',
                          node=tr, file=rel13)
